@@ -656,6 +656,15 @@ pub fn run_case_here(case: &Case) -> RunResult {
 		})
 		.collect();
 	let np = case.colls.iter().map(|e| max_poison(e, &case.colls)).max().unwrap_or(0);
+	{
+		let ps: Vec<(usize, &'static happylock::poisonable::Poisonable<Node>)> = built.poisonables.clone();
+		vraw::POISON_PROBE.with(|p| {
+			*p.borrow_mut() = Some(Box::new(move || {
+				(0..np).map(|i| ps.iter().find(|(q, _)| *q == i).map(|(_, o)| o.is_poisoned()).unwrap_or(false)).collect()
+			}))
+		});
+		CTRL.with(|c| c.borrow_mut().seen_poison = vec![false; np]);
+	}
 	let mut runner = Runner { case, built, keys: Vec::new(), leaves };
 	for s in &case.prog {
 		if runner.stmt(s).is_err() {
